@@ -2,11 +2,13 @@ use crate::runner::Property;
 
 pub mod c01;
 pub mod c03;
+pub mod c04;
 pub mod c05;
 pub mod c06;
 pub mod c09;
 pub mod c10;
 pub mod c11;
+pub mod c14;
 pub mod c15;
 pub mod common;
 
@@ -14,11 +16,13 @@ pub fn by_id(id: &str) -> Option<Box<dyn Property>> {
     match id {
         "C01" => Some(Box::new(c01::C01)),
         "C03" => Some(Box::new(c03::C03)),
+        "C04" => Some(Box::new(c04::C04)),
         "C05" => Some(Box::new(c05::C05)),
         "C06" => Some(Box::new(c06::C06)),
         "C09" => Some(Box::new(c09::C09)),
         "C10" => Some(Box::new(c10::C10)),
         "C11" => Some(Box::new(c11::C11)),
+        "C14" => Some(Box::new(c14::C14)),
         "C15" => Some(Box::new(c15::C15)),
         _ => None,
     }
